@@ -38,7 +38,7 @@ pub fn item_cases() -> Vec<Item> {
     v
 }
 
-pub const APP_RULE_NAMES: [&str; 10] = ["", "a", "abc", "abcd", "abcde", "é", "abé", "€a", "ab\u{80}", "abcdé"];
+pub const APP_RULE_NAMES: [&str; 15] = ["", "a", "abc", "abcd", "abcde", "é", "abé", "€a", "ab\u{80}", "abcdé", "name\0", "ab\0\0\0", "\0\0\0\0\0", "abcd\0\0", "\0\0\0\0"];
 
 pub fn rule_spaces(_tier: Tier) -> Vec<CfgSpace> {
     let mut v = Vec::new();
